@@ -25,7 +25,7 @@ Definition sc_ia' (c : option sclaim) : string := match c with Some c => sc_issu
 Definition sc_is (k : ckind) (c : option sclaim) : bool := match c with Some c => ckind_eqb (sc_kind c) k | None => false end.
 
 Lemma src_op_did_sign id strict keys c :
-  V2.OperatorClaims_DidSign keys strict id (sc_iss' c) (sc_sub' c) (sc_nil c) = op_did_sign id strict keys c.
+  V2.OperatorClaims_DidSign id keys strict (sc_iss' c) (sc_sub' c) (sc_nil c) = op_did_sign id strict keys c.
 Proof.
   unfold V2.OperatorClaims_DidSign, op_did_sign. destruct c as [c|]; cbn [sc_nil sc_iss' sc_sub']; [|reflexivity].
   cbv zeta. rewrite src_keys_contains. reflexivity.
